@@ -34,7 +34,7 @@ class Job:
                  timeout=900, expect=(), reach=0, bounded=None, functions=(), files=(),
                  entry='harness', mem_gb=24, extra_cbmc=(), backend='idn2', note='',
                  no_dfcc=False, nondet_static=False, assumptions=(), finder=None,
-                 solvers=('cadical', 'minisat2'), extra_sources=(), replace_candidates=(), mem_est=3, pyfunc=None,
+                 solvers=('cadical', 'minisat2'), extra_sources=(), replace_candidates=(), mem_est=3, pyfunc=None, safety_checks=True,
                  slice_formula=False):
         self.__dict__.update(locals())
         del self.__dict__['self']
@@ -229,7 +229,7 @@ def run_job(job, workdir, keep=False, extra_defs=(), trace_property=None):
             return r
         cur = gb2
     # -- 4. cbmc
-    cmd = ['cbmc', cur, '--no-malloc-may-fail', '--object-bits', str(job.object_bits)] + SAFETY_FLAGS
+    cmd = ['cbmc', cur, '--no-malloc-may-fail', '--object-bits', str(job.object_bits)] + (SAFETY_FLAGS if job.safety_checks else [])
     if job.leak:
         cmd += ['--memory-leak-check']
     if job.unwindset:
@@ -287,6 +287,10 @@ def run_job(job, workdir, keep=False, extra_defs=(), trace_property=None):
     other_fail = [o for o in r.obligations if o['status'] == 'FAILURE' and '.unwind.' not in o['name']]
     if unwind_fail and not other_fail:
         r.reason = 'unwinding assertion failed and nothing else was refuted (bound too small): ' + unwind_fail[0]['name']
+        return r
+    if other_fail:
+        # refuted obligations decide the job; the vacuity guards below only matter for a job that would otherwise pass
+        r.status = 'failed'
         return r
     for fam in job.expect:
         if not any(fam in n for n in names):
